@@ -275,7 +275,16 @@ def main(tier):
         if worst < mp.mpf("1e-7"):
             ck.ok("R-C19-5", c, sample={"source term": c, "max relative deviation from L(u) at 5 points x 2 parameter sets": mp.nstr(worst, 3)})
         else:
-            ck.violation("R-C19-5", c, ir.locstr(prog.fn(c + "::rhs_f")),
+            # what exactly is wrong: the defect rhs_f - L(u) at two fixed points of the default parameter set (8 digits), so
+            # that a recorded finding covers this defect and not any other wrong formula in the same class
+            sig = []
+            vals = PARAM_POINTS[0]
+            fields_m = construct(prog, c, [vals["Rmax"]] if n == 1 else [vals["Rmax"], vals["p_kappa_eps"], vals["p_delta_e"]], M)
+            for rv, tv in ((vals["Rmax"] / 2, mp.mpf(1)), (vals["Rmax"] * mp.mpf("0.77"), mp.mpf(4))):
+                lhs = cas.evaluate(prog.fn(c + "::rhs_f"), M, {"r": rv, "theta": tv, "sin_theta": mp.sin(tv), "cos_theta": mp.cos(tv)}, fields_m)
+                rhs = f_L(rv, tv, vals["Rmax"], vals["p_kappa_eps"], vals["p_delta_e"], mp.mpf("0.66"))
+                sig.append("(rhs_f-L(u))(%s,%s)=%s" % (mp.nstr(rv, 4), mp.nstr(tv, 4), mp.nstr(lhs - rhs, 8)))
+            ck.violation("R-C19-5", c, ir.locstr(prog.fn(c + "::rhs_f")), signature="; ".join(sig), msg=
                          "%s::rhs_f deviates from -div(alpha grad u)+beta u by a relative %s at (r,theta)=(%s,%s) with constructor arguments (Rmax, 2nd, 3rd)=(%s,%s,%s): rhs_f=%s, L(u)=%s" % (
                              c, mp.nstr(worst, 5), mp.nstr(wpt[0], 5), mp.nstr(wpt[1], 5), mp.nstr(wpt[4]["Rmax"], 4), mp.nstr(wpt[4]["p_kappa_eps"], 4), mp.nstr(wpt[4]["p_delta_e"], 4), mp.nstr(wpt[2], 12), mp.nstr(wpt[3], 12)))
     ck.extra["undecided_is_broken"] = False
